@@ -17,6 +17,7 @@ RULE = (
     "project.connect with mixed ~ operands, cross-project operands alone and mixed with own modules in one refused request, link operations inside the other project, save() and new_module in between). Oracle: reference model = set of ordered "
     "pairs; after every step pairs(in-tables) == pairs(out-tables) == model, no duplicates, slot-by-slot mutual consistency. "
     "non-trivial = history with a reconnect after a disconnect, a list op overlapping an existing link, or a freed slot in the middle"
+    ' Also (added while the seeded-change rounds of DESIGN section 9 ran): Also: refused requests that mix own and foreign modules, one operand list reused for several requests, projects with 254-300 filler modules (positions above 255), fan-outs of 17 / 40 / 256+ links (from a MultiCtl every other time), every attachable module type as a link end, save() steps, and a shard in which the caller dropped the project object and kept only the modules.'
 )
 ASSUMPTIONS = [
     "~a >> x and a plain list as the left operand of >> / << are not supported spellings and are not generated",
